@@ -15,25 +15,18 @@ _T = "NumbersModel.Props.C08."
 THEOREMS = [_T + t for t in (
     "exec_compile", "exec_compile_top", "render_total", "render_deterministic", "string_literal_invertible",
     "string_literal_wellquoted", "number_text_denotes", "number_text_denotes_plain", "pinned_number_to_str_wrong",
-    "proposed_fix_number_text_denotes", "dispatch_as_modelled", "function_names_distinct", "parse_show_partial",
-    "prec_as_library")]
+    "proposed_fix_number_text_denotes", "dispatch_as_modelled", "function_names_distinct", "parse_show",
+    "parse_show_expr", "render_canon", "lex_renderPT", "lex_render", "read_render", "text_determines_expression",
+    "function_names_lex", "a1_references_nameSafe", "prec_as_library")]
 PARTIAL = {
-    _T + "parse_show_partial":
-        "full statement: forall e : Expr, WellParen e -> parse (lex (render e)) = some e (characters, all constructors). "
-        "Proved: for the operator fragment {opaque atoms, the 12 binary operators, unary minus, postfix %, a parenthesised "
-        "expression} at TOKEN level: the stored nodes render to exactly the concatenation of the tree's token texts, and a "
-        "precedence-climbing parser (left-associative, comparisons loosest, unary minus tighter than binary operators, % "
-        "tightest, precedences = the library's OPERATOR_PRECEDENCE) reads the tokens back to exactly the tree, for every "
-        "tree parenthesised the way Numbers stores it. Missing: the lexer, function calls, multi-element lists, arrays; "
-        "these are exercised only by the independent Python parser (oracle).",
     _T + "number_text_denotes":
         "restricted to the repr shapes the pinned number_to_str renders faithfully (sciOk); the full statement over all "
         "repr shapes is false for the pinned code (pinned_number_to_str_wrong, known finding) and proved for the proposed "
         "repair (proposed_fix_number_text_denotes).",
 }
-RULE = ("a case is one generated expression tree (or one raw node sequence / one number repr) pushed through the real "
-        "TableFormulas.formula; distinct non-trivial = distinct rendered texts of trees with at least one operator, "
-        "call, list or array node")
+RULE = ("a case is one generated expression tree (or one raw node sequence / one number repr / one reference text) pushed "
+        "through the real TableFormulas.formula (reference texts: the real node_to_ref via C09's documents); distinct "
+        "non-trivial = distinct rendered texts of trees with at least one operator, call, list or array node")
 MANIFEST = {
     "text": "Core proved, glue assumed: exec_compile (the stack machine mirroring TableFormulas.formula + all Formula.* "
             "handlers, run on the post-fix serialisation of ANY expression tree, yields exactly the conventional infix "
@@ -42,9 +35,20 @@ MANIFEST = {
             "one fraction digit; the remaining positive-exponent shapes are the KNOWN FINDING refuted by "
             "pinned_number_to_str_wrong, and proposed_fix_number_text_denotes proves the proposed repair for all shapes), "
             "render_total, dispatch tables regenerated from source. "
-            "parse_show_partial: token-level precedence-climbing parser inverse for the operator fragment. Correspondence: random trees -> real "
+            "The text denotes the stored expression: parse_show (a precedence-climbing token parser reads the token "
+            "stream of EVERY well-parenthesised tree back to the tree: literals, references, 12 binary operators, unary "
+            "minus, %, lists (a,b,..), calls NAME(arg,..) with 0..n and omitted arguments, 1-D/2-D arrays {a,b;c,d}; "
+            "separators as Formula.function/list/array print them; fuel bound proved), lex_render (a character-level "
+            "lexer - decimal numbers, quoted strings with doubled quotes, names/references as maximal runs incl. quoted "
+            "segments, one/two-character operators incl. the typographic glyphs, separators, brackets - reads render e "
+            "back to exactly that token stream) and their composition read_render: for every WellFormed, WellParen "
+            "stored expression whose reference texts are nameSafe, formulaText (compile e) = ok text and readText text = "
+            "some (canon e), where canon : Expr -> PT forgets only what a text cannot show (number storage form, boolean "
+            "node kind, date literal vs the DATE(y,m,d) call it prints as, function id vs name, flat array storage vs "
+            "rows); text_determines_expression. Correspondence: random trees -> real "
             "ASTNodeArchive protobufs -> real TableFormulas.formula through a stub model, compared with the Lean model; "
-            "oracle = independent precedence-climbing parser of the output text.",
+            "the Lean lexer+parser is run on the REAL output text of every generated case and its tree compared with the "
+            "generated tree; oracle = independent precedence-climbing parser of the output text.",
     "note": "float repr, datetime arithmetic and protobuf field access are supplied by the harness as text/integers; "
             "reference text is opaque here (C09).",
     "technique": "Lean 4 proof (structural induction over nested expression trees) + differential correspondence",
@@ -491,6 +495,58 @@ def expected(t, fmap):
     raise AssertionError(k)
 
 
+OP_NUM = {g: k for k, g in OPS.items()}
+
+
+def dec_nk(d: Decimal):
+    """value as n / 10^k without trailing zeros in the fraction."""
+    _sign, digits, exp = d.as_tuple()
+    n = int("".join(map(str, digits)))
+    if exp >= 0:
+        return n * 10**exp, 0
+    k = -exp
+    while k > 0 and n % 10 == 0:
+        n //= 10
+        k -= 1
+    return n, k
+
+
+def sexp(x) -> str:
+    """canonical one-line s-expression of a tree in `expected`'s vocabulary (same format as the driver's showPT)."""
+    k = x[0]
+    if k == "num":
+        n, kk = dec_nk(x[1])
+        return f"(num {n} {kk})"
+    if k == "str":
+        return f"(str {enc_text(x[1])})"
+    if k == "bool":
+        return f"(bool {int(x[1])})"
+    if k == "ref":
+        return f"(name {enc_text(x[1])})"
+    if k == "empty":
+        return "(empty)"
+    if k == "bin":
+        return f"(bin {OP_NUM[x[1]]} {sexp(x[2])} {sexp(x[3])})"
+    if k in ("neg", "pct"):
+        return f"({k} {sexp(x[1])})"
+    if k == "paren":
+        return "(paren" + "".join(" " + sexp(e) for e in x[1]) + ")"
+    if k == "call":
+        return f"(call {enc_text(x[1])}" + "".join(" " + sexp(e) for e in x[2]) + ")"
+    if k == "arr":
+        return "(arr" + "".join(" (row" + "".join(" " + sexp(e) for e in r) + ")" for r in x[1]) + ")"
+    raise AssertionError(k)
+
+
+_WORD = re.compile(r"""(?:[^+\-*/^&=<>%×÷≥≤≠(){},;"']|'[^']*')+""")
+
+
+def name_safe(t: str) -> bool:
+    """independent statement of Parse.nameSafe: one word (no operator / bracket / separator / double-quote character
+    outside a closed '...' segment), not a decimal, not TRUE / FALSE."""
+    return bool(_WORD.fullmatch(t)) and not re.fullmatch(r"[0-9]+(\.[0-9]*)?", t) and t not in ("TRUE", "FALSE")
+
+
 def first_diff(a, b, path="root"):
     """(signature class, description) of the first difference between two parse trees."""
     if type(a) is not tuple or type(b) is not tuple:
@@ -558,6 +614,13 @@ def check_tree(ctx, real, t, fmap, req, out):
     if res is not None and text is not None:
         req.append("formula tree " + " ".join(tree_words(t)))
         out.append(res)
+        # the Lean lexer + parser on the REAL output text must give the generated tree; the generated tree satisfies
+        # the hypotheses of read_render (WellParen, RefsSafe) and the model reads its own text back
+        want = sexp(expected(t, fmap))
+        req.append("formula read " + enc_text(text))
+        out.append("ok " + want)
+        req.append("formula canon " + " ".join(tree_words(t)))
+        out.append("ok " + want + " 1 1 1")
     req.append("formula exec " + " ".join(words))
     out.append(f"ok {enc_text(text)}" if text is not None else res)
     if text is None:
@@ -638,6 +701,48 @@ def run(ctx: Ctx):
         t = well_paren(gen_tree(rng, rng.randrange(1, maxd + 1), fids))
         check_tree(ctx, real, t, fmap, req, out)
     ctx.correspond(f"random expression trees, depth <= {maxd}", req, out)
+
+    # --- reference texts printed by the REAL node_to_ref (C09's documents): nameSafe as stated, read back as one name ---
+    from checks import c09
+    req, out = [], []
+    seen, unsafe = set(), []
+    import random as _random
+    texts = []
+
+    def collect(cfg, r, k):
+        for _ in range(k):
+            spec, exp = c09.gen_ref(r, cfg)
+            try:
+                texts.append(c09.real_text(cfg, spec, exp))
+            except Exception:  # noqa: BLE001  C09's business
+                continue
+
+    for _ in range(3 if ctx.quick else 30):
+        collect(c09.Config(rng), rng, 150 if ctx.quick else 600)
+    saved_pool = list(c09.LABEL_POOL)
+    try:  # one fixed configuration with header names that need quoting / contain an apostrophe
+        c09.LABEL_POOL[:] = ["Bob's", "alpha", "a-b", "c+d", "x y"]
+        frng = _random.Random(20260930)
+        collect(c09.Config(frng), frng, 300)
+    finally:
+        c09.LABEL_POOL[:] = saved_pool
+    for rt in texts:
+        if rt in seen:
+            continue
+        seen.add(rt)
+        safe = name_safe(rt)
+        req.append("formula namesafe " + enc_text(rt))
+        out.append(f"ok {int(safe)}")
+        if not safe:
+            unsafe.append(rt)
+            continue
+        req.append("formula read " + enc_text(rt))
+        out.append("ok " + sexp(("ref", rt)))
+        wrapped = f"SUM({rt},1)+{rt}"
+        req.append("formula read " + enc_text(wrapped))
+        out.append("ok " + sexp(("bin", "+", ("call", "SUM", [("ref", rt), ("num", Decimal(1))]), ("ref", rt))))
+    ctx.correspond("reference texts from the real node_to_ref: nameSafe, read back as one name, alone and inside a call", req, out)
+    ctx.extra["reference_texts"] = {"distinct": len(seen), "not_nameSafe": len(unsafe), "not_nameSafe_examples": sorted(unsafe)[:8]}
 
     # --- raw node sequences (ill-formed programs: pop order, clamping, skipped/unsupported types, errors) ----
     N = real.N
